@@ -1,6 +1,8 @@
 #!/bin/bash
-# usage: selftest/soak.sh "<seeds>" "<props>"   -- quick tier, prints one summary line per run plus violations
+# usage: selftest/soak.sh "<seeds>" "<props>" [tier] [budget_s]  -- prints one summary line per run plus violations
 cd "$(dirname "$0")/.."
+TIER=${3:-quick}
 for seed in $1; do for c in $2; do
-  timeout 1200 ./check $c --seed $seed --no-evidence 2>&1 | grep -v "^  File\|^Thread\|^$\|^KNOWN" | cut -c1-500 | tail -7 | sed "s/^/[$c s$seed] /"
+  if [ -n "$4" ]; then B="--budget-s $4"; else B=""; fi
+  timeout 3000 ./check $c --tier $TIER --seed $seed --no-evidence $B 2>&1 | grep -v "^  File\|^Thread\|^$\|^KNOWN" | cut -c1-500 | tail -9 | sed "s/^/[$c $TIER s$seed] /"
 done; done
